@@ -8,6 +8,7 @@
   5. reading back: `Lookup` after `AddValueAt` returns the very node; handles
 -/
 import YtkProofs.HeapBuilderDefs
+import YtkProofs.HeapBuilderInv
 import YtkProofs.LensIdx
 import YtkProofs.Builder
 
@@ -768,5 +769,353 @@ theorem compactF_spec : ∀ (f : Nat) (h : Heap) (c : Addr) (h' : Heap), compact
     split at he
     · exact compactKvsH_spec (compactF_spec f) _ h c h' he
     · cases he
+
+/-! ## 5. reading back what was written -/
+
+theorem walkIdxH_nil (h : Heap) (n : Option Addr) : walkIdxH h n [] = n := by
+  cases n <;> rfl
+
+/-- after `setSlotH` the walk through the same index groups ends in the node `v` itself — in every
+    heap `g` that agrees with the result on the new cells and on the lists below `cur` -/
+theorem setSlotH_walk {h : Heap} {rank : Addr → Nat} (hr : h.RankedBy rank) (hn : h.NilOk) (v : Addr) :
+    ∀ (is : List Nat) (cur : Option Addr) (g : Heap),
+      (∀ b, h.size ≤ b → b < (setSlotH h cur is v).1.size → g.get? b = (setSlotH h cur is v).1.get? b) →
+      (∀ s b xs, cur = some s → Reach h s b → h.get? b = some (.list xs) →
+        g.get? b = (setSlotH h cur is v).1.get? b) →
+      walkIdxH g (some (setSlotH h cur is v).2) is = some v
+  | [], cur, g, _, _ => by simp only [setSlotH, walkIdxH]
+  | i :: is, cur, g, h1, h2 => by
+    have spec0 := setSlotH_spec hr hn v (i :: is) cur
+    simp only [setSlotH] at h1 h2 spec0 ⊢
+    cases hl : listAt h cur with
+    | none =>
+      simp only [hl] at h1 h2 spec0 ⊢
+      have ih := setSlotH_walk hr hn v is ((padH [] (i + 1))[i]?) g
+      have spec := setSlotH_spec hr hn v is ((padH [] (i + 1))[i]?)
+      generalize setSlotH h ((padH [] (i + 1))[i]?) is v = res at ih spec h1 h2 spec0
+      obtain ⟨hq, r'⟩ := res
+      simp only at ih spec h1 h2 spec0 ⊢
+      have hslot : (padH [] (i + 1))[i]? = some nilAddr := padH_getElem?_ge (by simp)
+      have hgr : g.get? hq.size = some (.list ((padH [] (i + 1)).set i r')) := by
+        rw [h1 hq.size spec.size_le (by rw [size_alloc]; exact Nat.lt_succ_self _), get?_alloc_new]
+      rw [alloc_snd]
+      simp only [walkIdxH, hgr]
+      have hi : i < (padH [] (i + 1)).length := by rw [padH_length]; simp
+      rw [List.getElem?_set_self hi]
+      apply ih
+      · intro b hb1 hb2
+        rw [h1 b hb1 (by rw [size_alloc]; exact Nat.lt_succ_of_lt hb2), get?_eq_of_le (le_alloc _ _) hb2]
+      · intro s b xs hs hsb hgb
+        rw [hslot] at hs
+        cases hs
+        have := Reach.of_leaf (show h.get? nilAddr = some (.leaf Scalar.null) from hn) hsb
+        subst this
+        rw [show h.get? nilAddr = some (.leaf Scalar.null) from hn] at hgb
+        cases hgb
+    | some p =>
+      obtain ⟨a, xs⟩ := p
+      simp only [hl] at h1 h2 spec0 ⊢
+      obtain ⟨hcur, hga⟩ := listAt_some hl
+      have halt := get?_lt hga
+      have ih := setSlotH_walk hr hn v is ((padH xs (i + 1))[i]?) g
+      have spec := setSlotH_spec hr hn v is ((padH xs (i + 1))[i]?)
+      generalize setSlotH h ((padH xs (i + 1))[i]?) is v = res at ih spec h1 h2 spec0
+      obtain ⟨hq, r'⟩ := res
+      simp only at ih spec h1 h2 spec0 ⊢
+      have haq : a < hq.size := Nat.lt_of_lt_of_le halt spec.size_le
+      have hgr : g.get? a = some (.list ((padH xs (i + 1)).set i r')) := by
+        rw [h2 a a xs hcur (.refl _) hga, get?_write_self _ _ haq]
+      simp only [walkIdxH, hgr]
+      have hi : i < (padH xs (i + 1)).length := by rw [padH_length]; omega
+      rw [List.getElem?_set_self hi]
+      apply ih
+      · intro b hb1 hb2
+        have hba : b ≠ a := Nat.ne_of_gt (Nat.lt_of_lt_of_le halt hb1)
+        rw [h1 b hb1 (by rw [size_write]; exact hb2), get?_write_ne _ _ hba]
+      · intro s b ys hs hsb hgb
+        by_cases hil : i < xs.length
+        · rw [padH_eq_self (by omega)] at hs
+          have hmem : s ∈ xs := List.mem_of_getElem? hs
+          have hba : b ≠ a := not_reach_parent hr hga (by simpa [Cell.kids] using hmem) hsb
+          rw [h2 a b ys hcur (.step hga (by simpa [Cell.kids] using hmem) hsb) hgb, get?_write_ne _ _ hba]
+        · rw [padH_getElem?_ge (Nat.le_of_not_lt hil)] at hs
+          cases hs
+          have := Reach.of_leaf (show h.get? nilAddr = some (.leaf Scalar.null) from hn) hsb
+          subst this
+          rw [show h.get? nilAddr = some (.leaf Scalar.null) from hn] at hgb
+          cases hgb
+
+/-- set-get for a direct child at pointer level: `Child(name)` after `AddValue(name, v)` is `v` -/
+theorem addH_child {h h' : Heap} {rank : Addr → Nat} (hr : h.RankedBy rank) (hn : h.NilOk)
+    {c v : Addr} {name : String} (he : addH h c name v = some h') : childH h' c name = some v := by
+  unfold addH at he
+  split at he
+  case h_2 => cases he
+  rename_i kvs hg
+  have hclt := get?_lt hg
+  unfold childH childKvs
+  cases hp : parseSeg name with
+  | mk b is =>
+  simp only [hp] at he ⊢
+  cases is with
+  | nil =>
+    simp only [Option.some.injEq] at he
+    subst he
+    rw [get?_write_self h _ hclt]
+    simp only [AMap.get?_insert_self]
+  | cons i is' =>
+    have hw := setSlotH_walk hr hn v (i :: is') (AMap.get? kvs b)
+    have spec := setSlotH_spec hr hn v (i :: is') (AMap.get? kvs b)
+    generalize setSlotH h (AMap.get? kvs b) (i :: is') v = res at hw spec he
+    obtain ⟨h1, r⟩ := res
+    simp only [Option.some.injEq] at he hw spec
+    subst he
+    rw [get?_write_self h1 _ (Nat.lt_of_lt_of_le hclt spec.size_le)]
+    simp only [AMap.get?_insert_self]
+    apply hw
+    · intro b' hb1 _
+      exact get?_write_ne _ _ (Nat.ne_of_gt (Nat.lt_of_lt_of_le hclt hb1))
+    · intro s b' xs _ _ hgb
+      have : b' ≠ c := by
+        intro e; subst e; rw [hg] at hgb; cases hgb
+      exact get?_write_ne _ _ this
+
+/-- a walk that ends in `x` only reads cells of strictly higher rank than `x` -/
+theorem walkIdxH_frame {h g : Heap} {rank : Addr → Nat} (hr : h.RankedBy rank) {x : Addr}
+    (hfr : ∀ b, b < h.size → rank x < rank b → g.get? b = h.get? b) :
+    ∀ (is : List Nat) (a : Addr), walkIdxH h (some a) is = some x → walkIdxH g (some a) is = some x
+  | [], a, hw => by simpa [walkIdxH] using hw
+  | i :: is, a, hw => by
+    simp only [walkIdxH] at hw ⊢
+    split at hw
+    · rename_i xs hg
+      cases hx : xs[i]? with
+      | none => rw [hx] at hw; cases is <;> simp [walkIdxH] at hw
+      | some k =>
+        rw [hx] at hw
+        have hrk : rank x < rank a :=
+          Nat.lt_of_le_of_lt (rank_le_of_reach hr (walkIdxH_reach is k x hw))
+            (hr a _ hg k (by simpa [Cell.kids] using List.mem_of_getElem? hx))
+        rw [hfr a (get?_lt hg) hrk, hg]
+        simp only [hx]
+        exact walkIdxH_frame hr hfr is k hw
+    · cases hw
+
+theorem childH_frame {h g : Heap} {rank : Addr → Nat} (hr : h.RankedBy rank) {c x : Addr} {name : String}
+    (hfr : ∀ b, b < h.size → rank x < rank b → g.get? b = h.get? b)
+    (hch : childH h c name = some x) : childH g c name = some x := by
+  have hrk : rank x < rank c := by
+    have hcx := childH_reach hch
+    cases hcx with
+    | refl _ =>
+      -- x = c is impossible: the child is stored below c
+      exfalso
+      unfold childH at hch
+      split at hch
+      · rename_i kvs hg
+        unfold childKvs at hch
+        cases hp : parseSeg name with
+        | mk b is =>
+        simp only [hp] at hch
+        cases is with
+        | nil => exact Nat.lt_irrefl _ (hr c _ hg c (mem_kids_of_get? hch))
+        | cons i is' =>
+          simp only at hch
+          cases hb : AMap.get? kvs b with
+          | none => rw [hb] at hch; simp [walkIdxH] at hch
+          | some a =>
+            rw [hb] at hch
+            have h1 := rank_le_of_reach hr (walkIdxH_reach _ a c hch)
+            have h2 := hr c _ hg a (mem_kids_of_get? hb)
+            omega
+      · cases hch
+    | step hg hk hkb => exact Nat.lt_of_le_of_lt (rank_le_of_reach hr hkb) (hr _ _ hg _ hk)
+  unfold childH at hch ⊢
+  split at hch
+  case h_2 => cases hch
+  rename_i kvs hg
+  rw [hfr c (get?_lt hg) hrk, hg]
+  simp only
+  unfold childKvs at hch ⊢
+  cases hp : parseSeg name with
+  | mk b is =>
+  simp only [hp] at hch ⊢
+  cases is with
+  | nil => exact hch
+  | cons i is' =>
+    simp only at hch ⊢
+    cases hb : AMap.get? kvs b with
+    | none => rw [hb] at hch; simp [walkIdxH] at hch
+    | some a =>
+      rw [hb] at hch
+      exact walkIdxH_frame hr hfr _ a hch
+
+theorem spineH_cont {h : Heap} {v : Addr} : ∀ (segs : List String), segs ≠ [] →
+    ∃ kvs, (spineH h segs v).1.get? (spineH h segs v).2 = some (.cont kvs)
+  | [], hne => absurd rfl hne
+  | p :: rest, _ => by
+    simp only [spineH]
+    generalize spineH h rest v = res
+    obtain ⟨h0, r0⟩ := res
+    cases hp : parseSeg p with
+    | mk b is =>
+    cases is with
+    | nil => exact ⟨_, get?_alloc_new _ _⟩
+    | cons i is' =>
+      simp only
+      generalize setSlotH h0 none (i :: is') r0 = res2
+      obtain ⟨h2, r2⟩ := res2
+      exact ⟨_, get?_alloc_new _ _⟩
+
+/-- in the new container for `p :: rest`, `Child(p)` is the node built for `rest` -/
+theorem spineH_child {h : Heap} {rank : Addr → Nat} (hc : h.Closed) (hr : h.RankedBy rank) (hn : h.NilOk)
+    {v : Addr} (hv : v < h.size) (p : String) (rest : List String) (g : Heap)
+    (hg : ∀ b, h.size ≤ b → b < (spineH h (p :: rest) v).1.size → g.get? b = (spineH h (p :: rest) v).1.get? b) :
+    childH g (spineH h (p :: rest) v).2 p = some (spineH h rest v).2 := by
+  obtain ⟨hl, hf, _, _⟩ := spineH_spec hc hr hn hv rest
+  simp only [spineH] at hg ⊢
+  generalize spineH h rest v = res at hl hf hg
+  obtain ⟨h0, r0⟩ := res
+  simp only at hl hf hg ⊢
+  have hsz := size_le_of_le hl
+  cases hp : parseSeg p with
+  | mk b is =>
+  cases is with
+  | nil =>
+    simp only [hp] at hg ⊢
+    have hgr : g.get? h0.size = some (.cont [(p, r0)]) := by
+      rw [hg h0.size hsz (by rw [size_alloc]; exact Nat.lt_succ_self _), get?_alloc_new]
+    rw [alloc_snd]
+    simp only [childH, hgr, childKvs, hp, AMap.get?, if_true]
+  | cons i is' =>
+    simp only [hp] at hg ⊢
+    have hpos : 0 < h.size := get?_lt hn
+    obtain ⟨rank1, hr1⟩ := rankedBy_extend hl hc hr hf hv hpos
+    have hw := setSlotH_walk hr1 (nilOk_mono hn hl) r0 (i :: is') none g
+    have spec := setSlotH_spec hr1 (nilOk_mono hn hl) r0 (i :: is') none
+    generalize setSlotH h0 none (i :: is') r0 = res2 at hw spec hg
+    obtain ⟨h2, r2⟩ := res2
+    simp only at hw spec hg ⊢
+    have hgr : g.get? h2.size = some (.cont [(b, r2)]) := by
+      rw [hg h2.size (Nat.le_trans hsz spec.size_le) (by rw [size_alloc]; exact Nat.lt_succ_self _), get?_alloc_new]
+    rw [alloc_snd]
+    simp only [childH, hgr, childKvs, hp, AMap.get?, if_true]
+    apply hw
+    · intro b' hb1 hb2
+      rw [hg b' (Nat.le_trans hsz hb1) (by rw [size_alloc]; exact Nat.lt_succ_of_lt hb2),
+        get?_eq_of_le (le_alloc _ _) hb2]
+    · intro s _ _ hs; cases hs
+
+/-- the heap for `p :: rest` extends the one for `rest` -/
+theorem spineH_cons_le {h : Heap} {rank : Addr → Nat} (hc : h.Closed) (hr : h.RankedBy rank) (hn : h.NilOk)
+    {v : Addr} (hv : v < h.size) (p : String) (rest : List String) :
+    (spineH h rest v).1 ≤ (spineH h (p :: rest) v).1 := by
+  obtain ⟨hl0, hf0, _, _⟩ := spineH_spec hc hr hn hv rest
+  have hpos : 0 < h.size := get?_lt hn
+  obtain ⟨rank1, hr1⟩ := rankedBy_extend hl0 hc hr hf0 hv hpos
+  simp only [spineH]
+  generalize spineH h rest v = res at hr1 hl0
+  obtain ⟨h0, r0⟩ := res
+  simp only at hr1 hl0 ⊢
+  cases hp : parseSeg p with
+  | mk b is =>
+  cases is with
+  | nil => exact le_alloc _ _
+  | cons i is' =>
+    simp only
+    have spec := setSlotH_spec hr1 (nilOk_mono hn hl0) r0 (i :: is') none
+    generalize setSlotH h0 none (i :: is') r0 = res2 at spec
+    obtain ⟨h2, r2⟩ := res2
+    exact le_trans (le_of_frame spec.size_le (spec.notList rfl).1) (le_alloc _ _)
+
+theorem spineH_lookup {h : Heap} {rank : Addr → Nat} (hc : h.Closed) (hr : h.RankedBy rank) (hn : h.NilOk)
+    {v : Addr} (hv : v < h.size) :
+    ∀ (segs : List String) (g : Heap), segs ≠ [] →
+      (∀ b, h.size ≤ b → b < (spineH h segs v).1.size → g.get? b = (spineH h segs v).1.get? b) →
+      lookupSegsH g (spineH h segs v).2 segs = some v
+  | [], _, hne, _ => absurd rfl hne
+  | [p], g, _, hg => by
+    simp only [lookupSegsH]
+    rw [spineH_child hc hr hn hv p [] g hg]
+    rfl
+  | p :: q :: rest, g, _, hg => by
+    simp only [lookupSegsH]
+    have hch := spineH_child hc hr hn hv p (q :: rest) g hg
+    obtain ⟨kvs, hk⟩ := spineH_cont (h := h) (v := v) (q :: rest) (by simp)
+    obtain ⟨hl0, _, _, hne0⟩ := spineH_spec hc hr hn hv (q :: rest)
+    have hr0 := hne0 (by simp)
+    have hext := spineH_cons_le hc hr hn hv p (q :: rest)
+    have hgk : g.get? (spineH h (q :: rest) v).2 = some (.cont kvs) := by
+      rw [hg _ hr0.1 (Nat.lt_of_lt_of_le hr0.2 (size_le_of_le hext)), get?_of_le hext hk]
+    simp only [contChildH, hch, hgk]
+    apply spineH_lookup hc hr hn hv (q :: rest) g (by simp)
+    intro b hb1 hb2
+    rw [hg b hb1 (Nat.lt_of_lt_of_le hb2 (size_le_of_le hext)), get?_eq_of_le hext hb2]
+
+theorem isCont_eq_true {c : Cell} (h : c.isCont = true) : ∃ kvs, c = .cont kvs := by
+  cases c with
+  | cont kvs => exact ⟨kvs, rfl⟩
+  | leaf _ => simp [Cell.isCont] at h
+  | list _ => simp [Cell.isCont] at h
+
+/-- SET-GET at pointer level: after `AddValueAt(path, v)`, `Lookup(path)` is the node `v` itself -/
+theorem addAtSegsH_lookup {h : Heap} {rank : Addr → Nat} (hc : h.Closed) (hr : h.RankedBy rank) (hn : h.NilOk)
+    (hm : h.MapsOk) {v : Addr} (hv : v < h.size) :
+    ∀ (segs : List String) (c : Addr) (h' : Heap), segs ≠ [] → c < h.size → addAtSegsH h c segs v = some h' →
+      lookupSegsH h' c segs = some v
+  | [], _, _, hne, _, _ => absurd rfl hne
+  | [s], c, h', _, _, he => by
+    simp only [addAtSegsH] at he
+    simp only [lookupSegsH]
+    exact addH_child hr hn he
+  | s :: t :: rest, c, h', _, hclt, he => by
+    have he0 := he
+    simp only [addAtSegsH] at he
+    simp only [lookupSegsH]
+    cases hcc : contChildH h c s with
+    | some x =>
+      simp only [hcc] at he
+      obtain ⟨hch, kvs, hgx⟩ := contChildH_some hcc
+      have hxlt := get?_lt hgx
+      obtain ⟨w, spec⟩ := addAtSegsH_spec hc hr hn hm hv (t :: rest) x h' (by simp) hxlt he
+      have ih := addAtSegsH_lookup hc hr hn hm hv (t :: rest) x h' (by simp) hxlt he
+      have hrw := rank_le_of_reach hr spec.reach_w
+      have hfr : ∀ b, b < h.size → rank x < rank b → h'.get? b = h.get? b := by
+        intro b hb hrk
+        exact spec.frame b hb (by intro e; subst e; omega)
+      have hch' := childH_frame hr hfr hch
+      have hgx' : ∃ kvs', h'.get? x = some (.cont kvs') := by
+        by_cases hxw : x = w
+        · subst hxw
+          obtain ⟨cw, cw', h1w, h2w, _, _, k3, _, _⟩ := spec.written
+          rw [hgx] at h1w
+          cases h1w
+          obtain ⟨kvs', rfl⟩ := isCont_eq_true (c := cw') (by rw [k3]; rfl)
+          exact ⟨kvs', h2w⟩
+        · exact ⟨kvs, by rw [spec.frame x hxlt hxw]; exact hgx⟩
+      obtain ⟨kvs', hgx'⟩ := hgx'
+      simp only [contChildH, hch', hgx']
+      exact ih
+    | none =>
+      simp only [hcc] at he
+      obtain ⟨hl, hf, _, hne⟩ := spineH_spec hc hr hn hv (t :: rest)
+      obtain ⟨kvs, hk⟩ := spineH_cont (h := h) (v := v) (t :: rest) (by simp)
+      have hlook := spineH_lookup hc hr hn hv (t :: rest) h' (by simp)
+      generalize spineH h (t :: rest) v = res at hl hf hne he hk hlook
+      obtain ⟨h1, r⟩ := res
+      simp only at hl hf hne he hk hlook
+      have hrf := hne (by simp)
+      have hpos : 0 < h.size := get?_lt hn
+      have hsz := size_le_of_le hl
+      obtain ⟨rank1, hr1⟩ := rankedBy_extend hl hc hr hf hv hpos
+      have hn1 := nilOk_mono hn hl
+      obtain ⟨w, spec⟩ := addH_spec hr1 hn1 (mapsOk_extend hl hm hf) he
+      have hwlt : w < h.size := reach_lt hc (reach_of_le hl hc spec.reach_w hclt) hclt
+      have hch' := addH_child hr1 hn1 he
+      have hfr : ∀ b, h.size ≤ b → b < h1.size → h'.get? b = h1.get? b := fun b hb1 hb2 =>
+        spec.frame b hb2 (Nat.ne_of_gt (Nat.lt_of_lt_of_le hwlt hb1))
+      have hgr : h'.get? r = some (.cont kvs) := by rw [hfr r hrf.1 hrf.2]; exact hk
+      simp only [contChildH, hch', hgr]
+      exact hlook hfr
 
 end Ytk.Heap
